@@ -97,6 +97,7 @@ async fn run_one(beh: &Value, root: &Path, snaps: &Arc<Mutex<Vec<(String, PathBu
     let wm = |m: &BucketConfirmationManager| m.get_watermark(0).map(|w| w.get()).unwrap_or(0);
     let mut done = 0u64;
     let mut persisted_this_round = false;
+    let mut admin_round = false;
     let mut last_w = 0u64;
     for (i, st) in beh["steps"].as_array().unwrap().iter().enumerate() {
         match st["op"].as_str().unwrap() {
@@ -119,8 +120,41 @@ async fn run_one(beh: &Value, root: &Path, snaps: &Arc<Mutex<Vec<(String, PathBu
                 last_w = w;
                 persisted_this_round = false;
             }
+            "force" | "skip" => {
+                // administrative operations: advance in memory and, when they advanced, persist at once (hook snapshots as for
+                // a persistence round; the model's following persist steps are marked `admin` and are not run again)
+                snaps.lock().unwrap().clear();
+                copy_dir(&conf_dir, &root.join("snap-0"));
+                let m = mgr.as_mut().ok_or("admin operation while down")?;
+                let before = wm(m);
+                if st["op"] == "force" {
+                    let to = st["to"].as_u64().unwrap();
+                    m.admin_force_watermark(0, to).await.map_err(|e| format!("step {i}: admin_force_watermark failed: {e}"))?;
+                } else {
+                    let v = st["v"].as_u64().unwrap();
+                    let adv = m.admin_skip_event(0, v).await.map_err(|e| format!("step {i}: admin_skip_event failed: {e}"))?;
+                    if adv != (st["w"].as_u64().unwrap() > before) {
+                        return Err(format!("step {i}: admin_skip_event({v}) reported advanced={adv}, specification watermark {} -> {}", before, st["w"]));
+                    }
+                }
+                let w = wm(m);
+                if w != st["w"].as_u64().unwrap() {
+                    return Err(format!("step {i}: after {} the watermark is {w}, specification {}", st, st["w"]));
+                }
+                if w < last_w {
+                    return Err(format!("step {i}: watermark went back from {last_w} to {w}"));
+                }
+                persisted_this_round = w > before;
+                admin_round = w > before;
+                last_w = w;
+            }
             "persist" => {
-                if st["step"].as_u64().unwrap() == 1 {
+                if st["admin"].as_bool().unwrap_or(false) {
+                    // the real call already ran the whole round; the model walks through its steps
+                    if st["step"].as_u64().unwrap() == 4 {
+                        admin_round = false;
+                    }
+                } else if st["step"].as_u64().unwrap() == 1 {
                     snaps.lock().unwrap().clear();
                     // snapshot 0 = files before this persistence round
                     let s0 = root.join("snap-0");
@@ -134,7 +168,9 @@ async fn run_one(beh: &Value, root: &Path, snaps: &Arc<Mutex<Vec<(String, PathBu
                 let k = st["after_step"].as_u64().unwrap();
                 mgr = None;
                 last_w = 0;
-                if k > 0 {
+                // inside an administrative round the real call has already persisted everything: also a crash before its
+                // first step (k = 0) goes back to the files as they were before the call
+                if k > 0 || admin_round {
                     if !persisted_this_round {
                         return Err(format!("step {i}: harness bookkeeping: crash inside a persistence round that did not start"));
                     }
@@ -151,6 +187,7 @@ async fn run_one(beh: &Value, root: &Path, snaps: &Arc<Mutex<Vec<(String, PathBu
                     copy_dir(&src, &conf_dir);
                 }
                 persisted_this_round = false;
+                admin_round = false;
             }
             "restart" => {
                 let mut m = BucketConfirmationManager::new(dir.clone(), 1, rf, parts.clone());
@@ -218,7 +255,7 @@ pub async fn watermark_cmd(rep: &mut Report, plans: &str) {
         rep.eval(1);
         let ops: Vec<&str> = beh["steps"].as_array().unwrap().iter().map(|s| s["op"].as_str().unwrap()).collect();
         let crash_at: Vec<u64> = beh["steps"].as_array().unwrap().iter().filter(|s| s["op"] == "crash").map(|s| s["after_step"].as_u64().unwrap()).collect();
-        rep.class(format!("rf={} crashes={:?} persists={}", beh["rf"], crash_at, ops.iter().filter(|o| **o == "persist").count().min(1)));
+        rep.class(format!("rf={} crashes={:?} persists={} admin={}", beh["rf"], crash_at, ops.iter().filter(|o| **o == "persist").count().min(1), ops.iter().filter(|o| **o == "force" || **o == "skip").count().min(2)));
         let r = tokio::spawn({
             let beh = beh.clone();
             let root = root.clone();
